@@ -6,14 +6,16 @@ PROP = dict(
     assumptions=[],
     jobs=dict(
         quick=[
-            job("sweep", "^TestVerifC18FeeFunction$", ["TestVerifC18FeeFunction"], 5000, shards=2),
-            job("sweep", "^TestVerifC18Publisher$", ["TestVerifC18Publisher"], 2000, shards=2),
-            job("sweep", "^TestVerifC18Aggregator$", ["TestVerifC18Aggregator"], 1500, shards=2),
+            job("sweep", "^TestVerifC18RefWeight$", ["TestVerifC18RefWeight"], 1, shards=1),
+            job("sweep", "^TestVerifC18FeeFunction$", ["TestVerifC18FeeFunction"], 20000, shards=2),
+            job("sweep", "^TestVerifC18Publisher$", ["TestVerifC18Publisher"], 6000, shards=4),
+            job("sweep", "^TestVerifC18Aggregator$", ["TestVerifC18Aggregator"], 4000, shards=4),
         ],
         thorough=[
-            job("sweep", "^TestVerifC18FeeFunction$", ["TestVerifC18FeeFunction"], 50000, shards=4),
-            job("sweep", "^TestVerifC18Publisher$", ["TestVerifC18Publisher"], 20000, shards=4),
-            job("sweep", "^TestVerifC18Aggregator$", ["TestVerifC18Aggregator"], 15000, shards=4),
+            job("sweep", "^TestVerifC18RefWeight$", ["TestVerifC18RefWeight"], 1, shards=1),
+            job("sweep", "^TestVerifC18FeeFunction$", ["TestVerifC18FeeFunction"], 400000, shards=4, timeout=1500),
+            job("sweep", "^TestVerifC18Publisher$", ["TestVerifC18Publisher"], 100000, shards=6, timeout=1500),
+            job("sweep", "^TestVerifC18Aggregator$", ["TestVerifC18Aggregator"], 60000, shards=6, timeout=1500),
         ],
     ),
 )
